@@ -442,7 +442,22 @@ func (g *progGen) node(depth int) string {
 		}
 		return "{% autoescape " + mode + " %}" + g.body(depth-1) + "{% endautoescape %}"
 	case "spaceless":
-		return "{% spaceless %}" + g.body(depth-1) + "{% endspaceless %}"
+		if g.o.taint || g.chance(3, "plainbody") {
+			return "{% spaceless %}" + g.body(depth-1) + "{% endspaceless %}"
+		}
+		// a body that gives the tag something to do: HTML tags, whitespace between them, and
+		// nodes in between (which may fail half way through the body)
+		var sb strings.Builder
+		for i, n := 0, g.drawInt(2, 6, "slparts"); i < n && g.nodes < g.o.maxNodes; i++ {
+			switch g.drawInt(0, 3, "slpart") {
+			case 0, 1:
+				sb.WriteString(pick(g.t, "sltag", []string{"<p>", "</p>", "<li>", "<b>", "</b>", "<br/>"}))
+				sb.WriteString(pick(g.t, "slws", []string{" ", "\n", "  \t", "", " \n "}))
+			default:
+				sb.WriteString(g.node(depth - 1))
+			}
+		}
+		return "{% spaceless %}" + sb.String() + "{% endspaceless %}"
 	case "comment":
 		if g.chance(2, "hash") {
 			return "{# " + pick(g.t, "cm", []string{"note", "{{ x }}", "{% if %}"}) + " #}"
